@@ -145,7 +145,7 @@ func c14Members(p *load.Program, r *oblig.Report) {
 			less = strings.ReplaceAll(less, "*free:"+an.FreeVarName(fv), "S")
 		}
 	}
-	okLess := less == "(S[#0].ID < S[#1].ID)" || less == "(S[#1].ID < S[#0].ID)" || less == "(S[#0].ID > S[#1].ID)"
+	okLess := less == "(S[#0].ID < S[#1].ID)" || less == "(S[#1].ID < S[#0].ID)" || less == "(S[#0].ID > S[#1].ID)" || less == "(S[#1].ID > S[#0].ID)"
 	okFree := false
 	if mc, ok := sortCall.Call.Args[1].(*ssa.MakeClosure); ok && len(mc.Bindings) == 1 {
 		okFree = clean(an.Shape(mc.Bindings[0])) == clean(an.Shape(sortCall.Call.Args[0]))
@@ -690,6 +690,11 @@ func c14Rack(p *load.Program, r *oblig.Report) {
 		return
 	}
 	// AssignGroups: grouping maps and the per-topic call
+	// (`for k, v := range m` hands out v = m[k]: the two spellings of the members of a topic are the same value)
+	rangeValue := func(s string) string {
+		const m = "make(map[string][]GroupMember)"
+		return strings.ReplaceAll(s, "next(range("+m+"))#2", m+"[next(range("+m+"))#1]")
+	}
 	var groupM, groupP bool
 	var callOK, storeOK bool
 	var callShape, storeShape string
@@ -705,16 +710,17 @@ func c14Rack(p *load.Program, r *oblig.Report) {
 				groupP = varargsElemIs(x.Value, "partitions[idx(partitions)]")
 			default:
 				if mt, ok := x.Map.Type().Underlying().(*types.Map); ok && mt.Elem().String() == "[]int" {
-					storeShape = clean(an.ShapeCanon(x.Map)) + "[" + k + "] = " + v
+					v = rangeValue(v)
+					storeShape = rangeValue(clean(an.ShapeCanon(x.Map))) + "[" + k + "] = " + v
 					tk := "next(range(make(map[string][]GroupMember)))#1"
 					res := "next(range(assignTopic(r,make(map[string][]GroupMember)[" + tk + "],make(map[string][]Partition)[" + tk + "])))"
-					okMap := clean(an.ShapeCanon(x.Map)) == "φ{make(GroupMemberAssignments)["+res+"#1]#0 | make(map[string][]int)}"
+					okMap := rangeValue(clean(an.ShapeCanon(x.Map))) == "φ{make(GroupMemberAssignments)["+res+"#1]#0 | make(map[string][]int)}"
 					storeOK = okMap && k == tk && v == res+"#2"
 				}
 			}
 		case *ssa.Call:
 			if f := x.Call.StaticCallee(); f != nil && f == at {
-				callShape = clean(an.ShapeCanon(x))
+				callShape = rangeValue(clean(an.ShapeCanon(x)))
 				tk := "next(range(make(map[string][]GroupMember)))#1"
 				callOK = callShape == "assignTopic(r,make(map[string][]GroupMember)["+tk+"],make(map[string][]Partition)["+tk+"])"
 			}
